@@ -1,8 +1,9 @@
 #!/bin/bash
-# Parallel variant of seedall.sh: usage: seedall_par.sh <jobs> [id-substring]. Writes seeded/RESULTS.md when no filter is given.
+# Parallel variant of seedall.sh: usage: [SKIP_FILE=<ids already done>] seedall_par.sh <jobs> [id-substring]. Writes seeded/RESULTS.md when no filter is given.
+# (Three jobs next to anything else that is heavy overloads the 16 cores; the cluster checks then take many times longer.)
 cd /verif/seeded || exit 1
 jobs=${1:-3}; filter=${2:-}
-work=/verif/.work/seedall; rm -rf $work; mkdir -p $work
+work=/verif/.work/seedall; [ -z "${SKIP_FILE:-}" ] && rm -rf $work; mkdir -p $work
 one() {
   id=$1
   props=$(python3 -c "import json;m=json.load(open('$id/meta.json'));print(' '.join(sorted({c.split(':')[0] for c in m.get('checks_run_against_it',[])})))")
@@ -22,7 +23,7 @@ PY
   echo "$id$res"
 }
 export -f one
-ls -d */ | sed 's#/##' | while read id; do [ -f $id/patch.diff ] || continue; case "$id" in *"$filter"*) echo $id;; esac; done | xargs -P $jobs -I{} bash -c 'one {}'
+ls -d */ | sed 's#/##' | while read id; do [ -f $id/patch.diff ] || continue; [ -n "${SKIP_FILE:-}" ] && grep -qx "$id" "$SKIP_FILE" && continue; case "$id" in *"$filter"*) echo $id;; esac; done | xargs -P $jobs -I{} bash -c 'one {}'
 if [ -z "$filter" ]; then
   { echo "| seeded change | property | check | exit | caught |"; echo "|---|---|---|---|---|"; cat $work/*.row | sort; } > /verif/seeded/RESULTS.md
 fi
